@@ -26,6 +26,21 @@ func init() {
 				panel := MakeUserPanel(newEvManager(mm))
 				var wg sync.WaitGroup
 				sesh := make([]*mux.Session, c.PI("conns", 3))
+				if c.P("lastclose", "0") == "1" {
+					// the user's only session so far ends while the new connections arrive
+					user, err := panel.GetUser(uidOf(0))
+					if err != nil {
+						vrt.Fail("harness", "GetUser: %v", err)
+					}
+					if _, _, err := user.GetSession(99, plainSeshConfig()); err != nil {
+						vrt.Fail("harness", "GetSession: %v", err)
+					}
+					wg.Add(1)
+					vrt.Go("last-session-ends", func() {
+						defer wg.Done()
+						user.CloseSession(99, "")
+					})
+				}
 				for i := range sesh {
 					i := i
 					wg.Add(1)
@@ -36,6 +51,9 @@ func init() {
 							vrt.Fail("harness", "GetUser: %v", err)
 						}
 						s, _, err := user.GetSession(uint32(i+1), plainSeshConfig())
+						if err == ErrUserTerminated {
+							return // the connection met the record at its end and is refused (the client dials again)
+						}
 						if err != nil {
 							vrt.Fail("harness", "GetSession: %v", err)
 						}
@@ -52,9 +70,15 @@ func init() {
 					})
 				}
 				wg.Wait()
-				for i := 1; i < len(sesh); i++ {
-					if sesh[i].Valve != sesh[0].Valve {
-						vrt.Fail("one-valve-per-user", "sessions %d and 1 of the same user were given different valves: the user's allowance is multiplied", i+1)
+				var first *mux.Session
+				for i := 0; i < len(sesh); i++ {
+					if sesh[i] == nil || sesh[i].IsClosed() {
+						continue
+					}
+					if first == nil {
+						first = sesh[i]
+					} else if sesh[i].Valve != first.Valve {
+						vrt.Fail("one-valve-per-user", "two live sessions of the same user (connection %d's and an earlier one) were given different valves: the user's allowance is multiplied", i+1)
 					}
 				}
 				vrt.Observe("records=%d", len(panel.activeUsers))
